@@ -102,7 +102,7 @@ static Var fresh(Ctx& c, Kind k, uint64_t size) {
   v.kind = k;
   v.size = size;
   v.sl = (k == KZ) ? c.n + c.rng->below(3) : c.n;
-  if (k == KD) v.d.assign(size * c.n + 1, 1e300); else v.z.assign(size * v.sl + 1, 0x7777777777777777LL);
+  if (k == KD) v.d.assign((size > 5 ? size : 5) * c.n + 1, 1e300); else v.z.assign(size * v.sl + 1, 0x7777777777777777LL);
   v.val.assign(size, pzero(c.n));
   return v;
 }
@@ -254,14 +254,20 @@ static bool step(Ctx& c) {
       Var& A = c.vars[a];
       uint64_t rsz = 1 + r.below(4);
       Var out = fresh(c, KB, rsz);
-      bool tmpa = r.below(2);
+      int mode = (int)r.below(3);  // 0 separate, 1 tmp_a (destroys the source), 2 in place (res is the DFT buffer itself)
+      bool tmpa = mode != 0;
       c.tmp.assign(vec_znx_idft_tmp_bytes(mod) + 8, 0xAB);
-      if (tmpa) vec_znx_idft_tmp_a(mod, (VEC_ZNX_BIG*)out.z.data(), rsz, (VEC_ZNX_DFT*)A.d.data(), A.size);
-      else vec_znx_idft(mod, (VEC_ZNX_BIG*)out.z.data(), rsz, (VEC_ZNX_DFT*)A.d.data(), A.size, c.tmp.data());
+      if (mode == 1) vec_znx_idft_tmp_a(mod, (VEC_ZNX_BIG*)out.z.data(), rsz, (VEC_ZNX_DFT*)A.d.data(), A.size);
+      else if (mode == 2) {
+        // the buffer has room for 5 limbs; limbs beyond A.size hold stale data
+        for (uint64_t i = A.size * n; i < 5 * n; i++) A.d[i] = 12345.678 + (double)i;
+        vec_znx_idft(mod, (VEC_ZNX_BIG*)A.d.data(), rsz, (VEC_ZNX_DFT*)A.d.data(), A.size, c.tmp.data());
+        memcpy(out.z.data(), A.d.data(), rsz * n * 8);
+      } else vec_znx_idft(mod, (VEC_ZNX_BIG*)out.z.data(), rsz, (VEC_ZNX_DFT*)A.d.data(), A.size, c.tmp.data());
       for (uint64_t i = 0; i < rsz; i++) out.val[i] = limb_or_zero(A, i, n);
       if (tmpa) c.vars.erase(c.vars.begin() + a);  // the DFT variable is dead
       c.vars.push_back(out);
-      note(c, "idft%s d%d rsz=%lu", tmpa ? "_tmp_a" : "", a, (unsigned long)rsz);
+      note(c, "idft%s d%d rsz=%lu", mode == 1 ? "_tmp_a" : (mode == 2 ? "_inplace" : ""), a, (unsigned long)rsz);
       return true;
     }
     case 10: case 11: {  // big add/sub (big,big) or (big,small)
@@ -336,7 +342,21 @@ static std::string verify(Ctx& c) {
   const uint64_t n = c.n;
   for (size_t v = 0; v < c.vars.size(); v++) {
     Var& V = c.vars[v];
-    if (V.kind == KD) continue;  // opaque: checked through the variables derived from it
+    if (V.kind == KD) {
+      // opaque object: checked through a non-destructive inverse transform of a copy
+      std::vector<double> cp(V.d);
+      std::vector<int64_t> big(V.size * n + 1);
+      vec_znx_idft_tmp_a(c.mod, (VEC_ZNX_BIG*)big.data(), V.size, (VEC_ZNX_DFT*)cp.data(), V.size);
+      for (uint64_t i = 0; i < V.size; i++)
+        for (uint64_t j = 0; j < n; j++)
+          if ((i128)big[i * n + j] != V.val[i][j]) {
+            char buf[200];
+            snprintf(buf, sizeof buf, "FAIL C16 DFT-space variable %zu limb %lu coeff %lu: inverse transform gives %ld expected %ld; program: ", v,
+                     (unsigned long)i, (unsigned long)j, (long)big[i * n + j], (long)V.val[i][j]);
+            return std::string(buf) + c.trace;
+          }
+      continue;
+    }
     for (uint64_t i = 0; i < V.size; i++)
       for (uint64_t j = 0; j < n; j++)
         if ((i128)V.z[i * V.sl + j] != V.val[i][j]) {
